@@ -148,7 +148,7 @@ func recC07(c *ctx) {
 		for i := 0; i < 32; i++ {
 			for _, mask := range []byte{0x01, 0x40, 0x80} {
 				nk++
-				if nk%nstep != 0 {
+				if nk%nstep != 0 && i != 0 && i != 31 { // the two ends are always taken
 					continue
 				}
 				u := make([]byte, 32)
